@@ -552,6 +552,9 @@ func (bp *baseProcessor) checkHeaderBodyCorrelation(miniBlockHeaders []block.Min
 		return process.ErrHeaderBodyMismatch
 	}
 
+	// each mini block header must be matched by exactly one mini block from the body
+	usedMbHashes := make(map[string]struct{}, len(miniBlockHeaders))
+
 	for i := 0; i < len(body.MiniBlocks); i++ {
 		miniBlock := body.MiniBlocks[i]
 		if miniBlock == nil {
@@ -579,6 +582,16 @@ func (bp *baseProcessor) checkHeaderBodyCorrelation(miniBlockHeaders []block.Min
 		if mbHdr.SenderShardID != miniBlock.SenderShardID {
 			return process.ErrHeaderBodyMismatch
 		}
+
+		if mbHdr.Type != miniBlock.Type {
+			return process.ErrHeaderBodyMismatch
+		}
+
+		_, alreadyMatched := usedMbHashes[string(mbHash)]
+		if alreadyMatched {
+			return process.ErrHeaderBodyMismatch
+		}
+		usedMbHashes[string(mbHash)] = struct{}{}
 	}
 
 	return nil
